@@ -245,3 +245,114 @@ def c02_roundtrip(inputs, doc):
         return dict(frame=cname, backend=backend, fields={k: (v.hex() if isinstance(v, bytes) else repr(v)) for k, v in f.items()},
                     problems=problems[:4])
     return None
+
+
+# --------------------------------------------------------------------------- C04
+
+def _drive(agen, cap=2000):
+    """Collect an async generator without an event loop (receive_data has no awaits)."""
+    out = []
+    it = agen.__aiter__()
+    while True:
+        co = it.__anext__()
+        try:
+            co.send(None)
+        except StopIteration as s:
+            out.append(s.value)
+            if len(out) >= cap:
+                return out, False
+            continue
+        except StopAsyncIteration:
+            return out, True
+        raise RuntimeError('receive_data suspended')
+
+
+def _split_spec(x):
+    recs = []
+    while len(x) >= 3:
+        L = int.from_bytes(x[:3], 'big')
+        if len(x) < 3 + L:
+            break
+        recs.append(bytes(x[3:3 + L]))
+        x = x[3 + L:]
+    return recs, bytes(x)
+
+
+def _expected_outputs(recs):
+    import rsocket.frame as F
+    out = []
+    for r in recs:
+        try:
+            fr = F.parse_or_ignore(r)
+            if fr is not None:
+                out.append(type(fr).__name__)
+        except Exception:
+            out.append('InvalidFrame')
+    return out
+
+
+def _check_stream(buffer, data):
+    from rsocket.frame_parser import FrameParser
+    p = FrameParser()
+    p._buffer = bytearray(buffer)
+    frames, done = _drive(p.receive_data(data))
+    recs, rest = _split_spec(bytes(buffer) + bytes(data))
+    exp = _expected_outputs(recs)
+    got = [type(f).__name__ for f in frames]
+    if not done or got != exp or bytes(p._buffer) != rest:
+        return dict(buffer=bytes(buffer).hex(), data=bytes(data).hex(), terminated=done, observed=got[:10], expected=exp[:10],
+                    rest_observed=bytes(p._buffer).hex()[:80], rest_expected=rest.hex()[:80])
+    return None
+
+
+def c04_stream(inputs, doc):
+    import random
+    b, d = inputs.get('buffer', b''), inputs.get('data', b'')
+    bad = _check_stream(b, d)
+    if bad:
+        return bad
+    # neighbourhood: every 2-way chunking (as buffer/data) of short frame sequences, valid and malformed
+    from rsocket.frame_builders import to_payload_frame, to_cancel_frame, to_request_n_frame
+    from rsocket.frame import serialize_with_frame_size_header
+    from rsocket.payload import Payload
+    seqs = []
+    f1 = serialize_with_frame_size_header(to_payload_frame(1, Payload(b'abc', b'm'), complete=True))
+    f2 = serialize_with_frame_size_header(to_cancel_frame(3))
+    f3 = serialize_with_frame_size_header(to_request_n_frame(5, 7))
+    junk = b'\x00\x00\x02\xff\xff'
+    empty = b'\x00\x00\x00'
+    for seq in ([f1], [f1, f2], [f2, f3, f1], [junk, f2], [f1, empty, f3], [junk, junk], [f3, f3, f3]):
+        s = b''.join(seq)
+        for cut in range(len(s) + 1):
+            bad = _check_stream(s[:cut], s[cut:])
+            if bad:
+                return bad
+            # three-way: feed first part, then the rest
+            from rsocket.frame_parser import FrameParser
+            p = FrameParser()
+            got = []
+            ok = True
+            for chunk in (s[:cut // 2], s[cut // 2:cut], s[cut:]):
+                fr, done = _drive(p.receive_data(chunk))
+                ok = ok and done
+                got += [type(f).__name__ for f in fr]
+            recs, rest = _split_spec(s)
+            if not ok or got != _expected_outputs(recs) or bytes(p._buffer) != rest:
+                return dict(stream=s.hex(), chunks=[cut // 2, cut], observed=got, expected=_expected_outputs(recs))
+    return None
+
+
+def c04_message(inputs, doc):
+    from rsocket.frame_parser import FrameParser
+    cands = [inputs.get('data', b''), b'', b'\x00']
+    from rsocket.frame_builders import to_cancel_frame
+    cands.append(to_cancel_frame(3).serialize())
+    for d in cands:
+        p = FrameParser()
+        frames, done = _drive(p.receive_data(d, 0), cap=1000)
+        exp = _expected_outputs([bytes(d)])
+        got = [type(f).__name__ for f in frames]
+        if not done or got != exp or len(p._buffer) != 0:
+            return dict(message=bytes(d).hex(), terminated=done, yielded=len(frames), observed=got[:5], expected=exp,
+                        buffer_left=len(p._buffer))
+    return None
